@@ -4,8 +4,16 @@
 //   timestamp <hex>                     the (stubbed) GetPlatformSpecificTimeString(), an environment input
 //   file <hex name> <hex content>       one line per closed file, in the order they were closed
 //   unclosed <hex name>                 a file that was opened but never closed
+// Real-I/O sub-mode (`realio` before `run`): the three file function pointers stay at the platform's real
+// implementations (src/Platforms/Gcc/UtestPlatform.cpp: fopen / fputs / fclose); the run happens in a fresh
+// temporary directory, the cpputest_*.xml files are read back from disk and reported exactly like the
+// in-memory ones, in group order (the generator keeps the file names of such a run distinct);
+//   missing <hex name>                  a report that should be on disk is not
+//   file lines for anything else found in the directory follow, sorted by name.
 #include "h_c16_util.h"
 #include "CppUTest/JUnitTestOutput.h"
+#include <dirent.h>
+#include <sys/stat.h>
 
 namespace {
 
@@ -37,8 +45,102 @@ void mem_fclose(PlatformSpecificFile file) {
 }
 void no_flush() {}
 
+PlatformSpecificFile (*g_real_fopen)(const char*, const char*) = 0;
+void (*g_real_fputs)(const char*, PlatformSpecificFile) = 0;
+void (*g_real_fclose)(PlatformSpecificFile) = 0;
+
+bool read_file(const std::string& path, std::string& out) {
+    FILE* f = fopen(path.c_str(), "rb");
+    if (!f) return false;
+    char buf[65536]; size_t n;
+    out.clear();
+    while ((n = fread(buf, 1, sizeof buf, f)) > 0) out.append(buf, n);
+    fclose(f);
+    return true;
+}
+
+// the report names in the order the groups end (the name a group's report gets: JUnitTestOutput::createFileName of the
+// group, or of "" when none of its tests runs)
+std::vector<std::string> expected_names(const vo::Registry& reg, JUnitTestOutput& out) {
+    std::vector<std::string> names;
+    TestFilter filter(reg.filter.c_str());
+    if (reg.strict) filter.strictMatching();
+    if (reg.invert) filter.invertMatching();
+    size_t i = 0;
+    while (i < reg.scripts.size()) {
+        size_t j = i; bool any = false;
+        while (j < reg.scripts.size() && reg.scripts[j].group == reg.scripts[i].group) {
+            if (!reg.has_filter || filter.match(SimpleString(reg.scripts[j].name.c_str()))) any = true;
+            j++;
+        }
+        names.push_back(out.createFileName(SimpleString(any ? reg.scripts[i].group.c_str() : "")).asCharString());
+        i = j;
+    }
+    return names;
+}
+
+void run_real_io(const vo::Registry& reg) {
+    char tmpl[] = "/tmp/h_c16_XXXXXX";
+    char* dir = mkdtemp(tmpl);
+    if (!dir || chdir(dir) != 0) { vh::emit("crash cannot-create-temporary-directory"); return; }
+    std::vector<std::string> names;
+    {
+        JUnitTestOutput out;
+        out.setPackageName(SimpleString(reg.package.c_str()));
+        names = expected_names(reg, out);
+    }
+    // the run itself happens in a process of its own, so that the directory is removed even when the run dies
+    fflush(stdout); fflush(stderr);
+    pid_t pid = fork();
+    if (pid == 0) {
+        alarm(30);
+        PlatformSpecificFOpen = g_real_fopen;
+        PlatformSpecificFPuts = g_real_fputs;
+        PlatformSpecificFClose = g_real_fclose;
+        {
+            JUnitTestOutput out;
+            out.setPackageName(SimpleString(reg.package.c_str()));
+            vo::run_registry(reg, out);
+        }
+        fflush(stdout); fflush(stderr);
+        _exit(0);
+    }
+    int st = 0;
+    while (waitpid(pid, &st, 0) < 0 && errno == EINTR) { }
+    std::set<std::string> seen;
+    for (size_t k = 0; k < names.size(); k++) {
+        std::string content;
+        if (read_file(names[k], content)) vh::emit("file %s %s", vh::hex(names[k]).c_str(), vh::hex(content).c_str());
+        else vh::emit("missing %s", vh::hex(names[k]).c_str());
+        seen.insert(names[k]);
+    }
+    std::vector<std::string> others;
+    if (DIR* d = opendir(".")) {
+        while (struct dirent* e = readdir(d)) {
+            std::string n = e->d_name;
+            if (n == "." || n == "..") continue;
+            if (!seen.count(n)) others.push_back(n);
+            else unlink(n.c_str());
+        }
+        closedir(d);
+    }
+    std::sort(others.begin(), others.end());
+    for (size_t k = 0; k < others.size(); k++) {
+        std::string content;
+        read_file(others[k], content);
+        vh::emit("file %s %s", vh::hex(others[k]).c_str(), vh::hex(content).c_str());
+        unlink(others[k].c_str());
+    }
+    if (chdir("/") != 0) {}
+    rmdir(dir);
+    if (WIFSIGNALED(st)) vh::emit("crash realio-child signal %d", WTERMSIG(st));
+    else if (WIFEXITED(st) && WEXITSTATUS(st) != 0)
+        vh::emit("crash realio-child %s", WEXITSTATUS(st) == 77 ? "asan" : WEXITSTATUS(st) == 78 ? "ubsan" : "exit");
+}
+
 void run_case(const vh::Case& c) {
     vo::Registry reg;
+    if (!g_real_fopen) { g_real_fopen = PlatformSpecificFOpen; g_real_fputs = PlatformSpecificFPuts; g_real_fclose = PlatformSpecificFClose; }
     PlatformSpecificFOpen = mem_fopen;
     PlatformSpecificFPuts = mem_fputs;
     PlatformSpecificFClose = mem_fclose;
@@ -48,6 +150,7 @@ void run_case(const vh::Case& c) {
         if (w[0] == "run" && w.size() == 1) {
             vh::emit_op("run");
             vh::emit("timestamp %s", vh::hex(std::string(vo::fake_time_string())).c_str());
+            if (reg.realio) { run_real_io(reg); continue; }
             size_t first = g_files.size();
             {
                 JUnitTestOutput out;
